@@ -47,8 +47,8 @@ def gen_case(rng, label, tier="quick", nmax=None):
                          zero_coupling=bool(rng.random() < 0.08), degenerate=bool(rng.random() < 0.12),
                          dipoles=False, lam=(5.0, 150.0), tau=(20.0, 200.0))
     c = {"label": label, "sys": s, "seed": int(rng.integers(1 << 30))}
-    J = numpy.abs(numpy.array(s["J"]))
-    nz = numpy.sort(J[J > 0])
+    J = numpy.abs(numpy.triu(numpy.array(s["J"])))
+    nz = numpy.unique(J[J > 0])
     if "cRF" in label:
         # cut-off below / between / above the couplings
         u = rng.random()
